@@ -116,3 +116,10 @@ def fail_at_call(detector, **kwargs):
     CALLS["n"] += 1
     if CALLS["n"] == CALLS["fail_at"]:
         raise ProbeError(f"probe failure at call {CALLS['n']}")
+
+
+def remember(detector, level=0, **kwargs):
+    """State-keeping probe: reports what earlier invocations left in the detector memory of the detector it is given."""
+    seen = detector._memory.setdefault("seen", [])
+    LOG.append({"name": detector.current_running_model_name, "level": level, "seen_before": list(seen), "detector": detector})
+    seen.append(level)
